@@ -155,4 +155,10 @@ PROPS = {
         "crash_prop": "C19", "crash_decides": True,
         "assumptions": ["the fake daemon delivers Disconnected once per lost connection on its own goroutine, like go-avahi", "D-Bus and the real Avahi client are outside the sandbox"],
     },
+    "C05": {
+        "level": EXPL,
+        "plan": [{"engine": "hubnet", "timeout": {"quick": 900, "thorough": 5400}, "shards": 12}],
+        "rule": "x",
+        "floors": {"evaluations": 20, "classes": 10},
+    },
 }
